@@ -160,6 +160,12 @@ class C13(Check):
         return env.n(250, 5000)
 
     def enumerated(self, env):
+        k = 9000
+        for names in (["d/a", "d/a", "d/a_0"], ["a", "a_0", "a"], ["x", "x", "x"], ["a", "a", "a_0", "a_1"]):
+            for outk in ("factory", "path"):
+                k += 1
+                if env.mine(k):
+                    yield {"op": "dups", "names": names, "out": outk}
         # small cases explored depth-first over all schedules
         shapes = [{"folders": [[60, 30], [50]], "chains": [0], "seed": 1}, {"folders": [[100], [100]], "chains": [0, 1], "seed": 2},
                   {"folders": [[40], [40], [40]], "chains": [0, 2, 1], "seed": 3}, {"folders": [[90, 10], [20, 70]], "chains": [1, 0], "seed": 4}]
@@ -201,8 +207,101 @@ class C13(Check):
                             yield {"arch": dict(sp, longname=ln, chains=[0]) if ln else sp, "mode": mode, "damage": dmg, "out": "factory", "chunk": 64, "sched": [],
                                    "concurrent_objects": 1, "op": "testzip"}
 
+    def _dups(self, case, env):
+        """duplicate member names across folders (and a member literally named like the substitute): the output, whatever the
+        library chooses to call the duplicates, must be the same under every order in which the folder workers finish"""
+        import py7zr.py7zr as pp
+
+        out = Outcome()
+        out.nontrivial = True
+        names = case["names"]
+        out.descriptor = ("dups", tuple(names), case["out"])
+        out.label("op:dups", "out:" + case["out"])
+        bio = io.BytesIO()
+        contents = [("member-%d:" % i).encode() * (i + 2) for i in range(len(names))]
+        for i, (n, d) in enumerate(zip(names, contents)):
+            bio.seek(0)
+            with py7zr.SevenZipFile(bio, "w" if i == 0 else "a", filters=CHAINS[0]) as z:
+                z.set_encoded_header_mode(False)
+                z.writestr(d, n)
+        data = bio.getvalue()
+        work = env.tmpdir("c13-")
+        apath = os.path.join(work, "a.7z")
+        with open(apath, "wb") as f:
+            f.write(data)
+        sig = {"op": "dups", "out": case["out"]}
+
+        def run(order):
+            """order: None = sequential (stream); else the workers run to completion one at a time in this order of start"""
+            turn = threading.Semaphore(1)
+            idx = {"n": 0}
+            events = [threading.Event() for _ in names]
+
+            class Serial(threading.Thread):
+                def __init__(self, *a, **kw):
+                    super().__init__(*a, **kw)
+                    self._k = idx["n"]
+                    idx["n"] += 1
+
+                def run(self):
+                    pos = order.index(self._k) if self._k in order else len(order)
+                    if pos > 0 and order[pos - 1] < len(events):
+                        events[order[pos - 1]].wait(5)
+                    try:
+                        super().run()
+                    finally:
+                        if self._k < len(events):
+                            events[self._k].set()
+
+            orig = getattr(pp, "Thread", None)
+            got = {}
+            try:
+                if order is not None and orig is not None:
+                    pp.Thread = Serial
+                src = io.BytesIO(data) if order is None else apath
+                with py7zr.SevenZipFile(src) as z:
+                    if case["out"] == "factory":
+                        fac = py7zr.io.BytesIOFactory(arch.BIG)
+                        z.extractall(factory=fac)
+                        for k, v in fac.products.items():
+                            v.seek(0)
+                            got[k] = v.read()
+                    else:
+                        dest = os.path.join(work, "o%d" % len(os.listdir(work)))
+                        z.extractall(dest)
+                        for root, _, files in os.walk(dest):
+                            for fn in files:
+                                with open(os.path.join(root, fn), "rb") as f:
+                                    got[os.path.relpath(os.path.join(root, fn), dest)] = f.read()
+            finally:
+                if orig is not None:
+                    pp.Thread = orig
+            return got
+
+        try:
+            ref = run(None)
+            if sorted(ref.values()) != sorted(contents):
+                out.violate(dict(sig, kind="duplicate-names-lose-a-member", mode="sequential"), observed={k: len(v) for k, v in ref.items()}, expected="every member delivered under some name")
+            n = len(names)
+            import itertools
+
+            for order in itertools.permutations(range(n)):
+                got = run(list(order))
+                if got != ref:
+                    out.violate(dict(sig, kind="output-depends-on-worker-order"), observed={"order": list(order), "got": {k: v[:12].decode() for k, v in got.items()}},
+                                expected={k: v[:12].decode() for k, v in ref.items()})
+                    break
+        except Exception as e:
+            cls, frame = arch.exc_sig(e)
+            out.violate(dict(sig, kind="duplicate-names-raise", exc=cls, frame=frame), observed=repr(e)[:200], expected="extraction completes")
+        finally:
+            shutil.rmtree(work, ignore_errors=True)
+        return out
+
     # ------------------------------------------------------------------
     def execute(self, case, env):
+        if case.get("op") == "dups":
+            return self._dups(case, env)
         out = Outcome()
         data, model, folder_of, ranges = build(case["arch"])
         nf = len(ranges)
